@@ -488,8 +488,34 @@ fn check_type(rep: &mut Report, number: u16, tier: Tier, part: u32) {
             expect_err(rep, number, &x, "SatelliteMismatch", "satellite rows disagree with cell rows");
         }
     }
+    // a full grid in which one cell is replaced by a repeat of another (list length = |S|x|G|)
+    for (ns, ng) in [(2usize, 2usize), (3, 2), (2, 4), (8, 8)] {
+        if ng > nsig {
+            continue;
+        }
+        let sats: Vec<u8> = (0..ns).map(|i| (1 + i * 9) as u8).collect();
+        let sigs: Vec<u8> = table[..ng].iter().map(|e| e.0).collect();
+        let full: Vec<(u8, u8)> = sats.iter().flat_map(|s| sigs.iter().map(move |g| (*s, *g))).collect();
+        if let Some(m) = base_message(number, &sats, &sigs, &full) {
+            // last cell becomes a repeat of the first cell of its satellite (its own signal stays in use by other rows)
+            let last = full.len() - 1;
+            let e = table[0];
+            let mut x = m.clone();
+            apply(&mut x, Op::SetCellSig(last, e.1, e.2));
+            expect_err(rep, number, &x, "DuplicateSatelliteSignal", &format!("full {}x{} grid with one cell repeated and one missing", ns, ng));
+            // and the first cell repeated at the end position of another satellite
+            let mut y = m.clone();
+            apply(&mut y, Op::SetCellSat(last, sats[0]));
+            if ns > 2 || ng > 1 {
+                // satellite sats[ns-1] keeps its other cells when ng > 1; otherwise this is a mismatch, skip
+                if ng > 1 {
+                    expect_err(rep, number, &y, "DuplicateSatelliteSignal", &format!("full {}x{} grid with one cell moved onto an occupied cell", ns, ng));
+                }
+            }
+        }
+    }
     // more than 64 mask cells: ns satellites with one cell each, spread over ng signals
-    for (ns, ng) in [(33usize, 2usize), (64, 2), (17, 4), (9, 8), (13, 5), (5, 13), (22, 3), (64, 32)] {
+    for (ns, ng) in [(33usize, 2usize), (64, 2), (17, 4), (9, 8), (13, 5), (5, 13), (22, 3), (64, 4), (52, 5), (32, 8), (16, 16), (64, 12), (43, 6), (64, 32)] {
         if ng > nsig {
             continue;
         }
